@@ -238,11 +238,15 @@ class NetworkGraph(AbstractBaseIR):
                         # TODO: sort edges into unique delay/spread combinations and only loop over those
                         if spreads:
                             for i, (edge, delay, spread, node) in enumerate(zip(scalar_edges, delays, spreads, nodes)):
+                                if not delay and not spread:
+                                    continue  # an edge without delay reads the source variable itself
                                 self._add_edge_buffer(node_name, op_name, var_name, edges=[edge], delays=[delay],
                                                       nodes=[node], spreads=[spread], dde_approx=dde_approx,
                                                       buffer_id=f"_out{i}")
                         else:
                             for i, (edge, delay, node) in enumerate(zip(scalar_edges, delays, nodes)):
+                                if not delay:
+                                    continue  # an edge without delay reads the source variable itself
                                 self._add_edge_buffer(node_name, op_name, var_name, edges=[edge], delays=[delay],
                                                       nodes=[node], dde_approx=dde_approx, buffer_id=f"_out{i}")
 
